@@ -1,5 +1,5 @@
 // mkoverlay writes a `go build -overlay` file that (a) replaces every non-test file of package
-// regexp2 that uses sync, sync/atomic, the clock functions of time, or a go statement by a copy
+// regexp2 (and of its sub-packages syntax and helpers) that uses sync, sync/atomic, the clock functions of time, or a go statement by a copy
 // whose imports point at the verification shims and whose go statements go through vsched.Go,
 // and (b) adds the shim packages and one extra file of package regexp2 as virtual files under
 // the repository directory. /repo itself is not touched.
@@ -32,7 +32,12 @@ func main() {
 	}
 	repo, shim, out := os.Args[1], os.Args[2], os.Args[3]
 	replace := map[string]string{}
-	files, _ := filepath.Glob(filepath.Join(repo, "*.go"))
+	// the root package and the packages it is built from (a change can put shared state into any of them)
+	var files []string
+	for _, sub := range []string{"", "syntax", "helpers"} {
+		fs, _ := filepath.Glob(filepath.Join(repo, sub, "*.go"))
+		files = append(files, fs...)
+	}
 	fset := token.NewFileSet()
 	rewritten := 0
 	for _, path := range files {
@@ -45,8 +50,12 @@ func main() {
 			fmt.Fprintln(os.Stderr, "parse:", err)
 			os.Exit(1)
 		}
-		if f.Name.Name != "regexp2" {
-			continue
+		sub := filepath.Base(filepath.Dir(path))
+		if filepath.Dir(path) == filepath.Clean(repo) {
+			sub = ""
+			if f.Name.Name != "regexp2" {
+				continue
+			}
 		}
 		usesClock := false
 		hasGo := false
@@ -93,6 +102,9 @@ func main() {
 			os.Exit(1)
 		}
 		dst := filepath.Join(out, base)
+		if sub != "" {
+			dst = filepath.Join(out, sub+"__"+base)
+		}
 		if err := os.WriteFile(dst, buf.Bytes(), 0o644); err != nil {
 			fmt.Fprintln(os.Stderr, err)
 			os.Exit(1)
